@@ -5,16 +5,19 @@ same (pre-state, call tree).
   block <m> fee*m <n> (<owner> <key> <val>)*n -> ok      (pre-state of a block; all fees burnt from account 50)
   tx | <tree>                               -> HALT|FAULT ev <n> (<c> <e>)*    implRun on the current store (raw events)
   spec                                      -> HALT|FAULT ev <n> (<c> <e>)*    specRun of the same tree on the spec's store
+  dev                                       -> dev 0|1                         specKRun's flag for the last tx (the deviating commit rule was applied)
   end                                       -> st <n> (<owner> <key> <val>)*   the store under the implementation model
   specend                                   -> st ...                          the store under the specification
   cinit n (id v)* | cpush | cwrite id v | cpersist | cdrop | cread  -> the values every native id shows at every
                                                depth of the cache stack `CStack` (native-cache layering of pkg/core/dao)
-Tree tokens: [ nodes ] ; P k v ; D k ; N e ; Q k [..] ; C c fl [..] ; I [..] ;
+  blset n x* | blblock x | blunblock x | blstale x y     -> bl <n> <account>*               Policy's blocked-accounts cache, in its order
+Tree tokens: [ nodes ] ; P k v ; D k ; N e ; NN e n ; Q k [..] ; C c fl [..] ; I [..] ;
   T [body] hasC [cat] hasF [fin] ; X ; A ; G tok to amt fl hasCb [cb] ; F v fl ; B a fl tag ; U a fl ; Y d fl ;
-  M fl ; Z fl ; R role v fl ; W c fee fl ; V c fl ; E to amt fl tag hasCb [cb] ; O on fl tag   (txg | tree: out-of-gas transaction)
+  M nefV fl ; Z fl tag ; KR fl ; KU w fl ; OR u fl ; OF fl ; NL till fl ; NW to fl ; R role v fl ; W c fee fl ; V c fl ; E to amt fl tag hasCb [cb] ; O on fl tag   (txg | tree: out-of-gas transaction)
 -/
 import NeoModel.Base.Proto
 import NeoModel.Model.Exec
+import NeoModel.Model.ExecBlocked
 open NeoModel NeoModel.Exec
 
 abbrev Toks := List String
@@ -24,46 +27,65 @@ def seqOf : List Tree → Tree
   | [t] => t
   | t :: r => .seq t (seqOf r)
 
+/-- what the interpreter contract `a` does when it receives a GAS reward (onNEP17Payment(null, amount, null)):
+    contract 1 is built with a hook — if its storage key 4 is present it calls contract 0, which destroys
+    itself (`tag` 90 names the reward of that destruction); the other contracts do nothing. -/
+def rewardProg (a : Nat) : Tree :=
+  if a = 1 then
+    .ifp 4 (.call 0 Flags.all (.native false (.revoke 99 90) Flags.all .skip
+      (.seq (.native true (.mint 99 90) Flags.all .skip .skip) (.native true .destroy Flags.all .skip .skip))))
+  else .skip
+
+/-- the deferred GAS reward minting for `who` (99 = the executing contract `self`) with the receiver's hook. -/
+def mintNode (self who tag : Nat) (f : Flags) : Tree :=
+  .native true (.mint who tag) f (rewardProg (if who = 99 then self else who)) .skip
+
 mutual
-  partial def pList : Toks → Option (Tree × Toks)
-    | "[" :: r => pItems r []
+  partial def pList (self : Nat) : Toks → Option (Tree × Toks)
+    | "[" :: r => pItems self r []
     | _ => none
-  partial def pItems (ts : Toks) (acc : List Tree) : Option (Tree × Toks) :=
+  partial def pItems (self : Nat) (ts : Toks) (acc : List Tree) : Option (Tree × Toks) :=
     match ts with
     | "]" :: r => some (seqOf acc.reverse, r)
     | _ =>
-      match pNode ts with
-      | some (t, r) => pItems r (t :: acc)
+      match pNode self ts with
+      | some (t, r) => pItems self r (t :: acc)
       | none => none
-  partial def pNode : Toks → Option (Tree × Toks)
+  /-- `self`: the contract that executes the node (9 = the entry script). -/
+  partial def pNode (self : Nat) : Toks → Option (Tree × Toks)
     | "P" :: k :: v :: r => do some (.put (← k.toNat?) (← v.toNat?), r)
     | "D" :: k :: r => do some (.del (← k.toNat?), r)
     | "N" :: e :: r => do some (.notify (← e.toNat?), r)
+    | "NN" :: e :: n :: r => do
+      -- the same notification n times (around the limit of 512 per execution)
+      let e ← e.toNat?
+      some (seqOf (List.replicate (← n.toNat?) (.notify e)), r)
     | "X" :: r => some (.throw, r)
     | "A" :: r => some (.abort, r)
     | "Q" :: k :: r => do
-      let (b, r) ← pList r
+      let (b, r) ← pList self r
       some (.ifp (← k.toNat?) b, r)
     | "C" :: c :: fl :: r => do
-      let (b, r) ← pList r
-      some (.call (← c.toNat?) (Flags.ofNat (← fl.toNat?)) b, r)
+      let c ← c.toNat?
+      let (b, r) ← pList c r
+      some (.call c (Flags.ofNat (← fl.toNat?)) b, r)
     | "I" :: r => do
-      let (b, r) ← pList r
+      let (b, r) ← pList self r
       some (.loc b, r)
     | "T" :: r => do
-      let (b, r) ← pList r
+      let (b, r) ← pList self r
       match r with
       | hc :: r =>
-        let (c, r) ← pList r
+        let (c, r) ← pList self r
         match r with
         | hf :: r =>
-          let (f, r) ← pList r
+          let (f, r) ← pList self r
           some (.try_ b (hc == "1") c (hf == "1") f, r)
         | _ => none
       | _ => none
     | "G" :: tok :: to :: amt :: fl :: hasCb :: r => do
-      let (cb, r) ← pList r
       let to ← to.toNat?
+      let (cb, r) ← pList to r
       some (.native false (.transfer (← tok.toNat?) to (← amt.toNat?) (to < 4)) (Flags.ofNat (← fl.toNat?))
         (if hasCb == "1" then cb else .skip) .skip, r)
     | "F" :: v :: fl :: r => do
@@ -74,15 +96,32 @@ mutual
       let tag ← tag.toNat?
       let f := Flags.ofNat (← fl.toNat?)
       some (.native false (.revoke a tag) f .skip
-        (.seq (.native true (.mint a tag) f .skip .skip) (.native true (.block a) f .skip .skip)), r)
+        (.seq (mintNode self a tag f) (.native true (.block a) f .skip .skip)), r)
     | "U" :: a :: fl :: r => do
       some (.native false (.unblock (← a.toNat?)) (Flags.ofNat (← fl.toNat?)) .skip .skip, r)
     | "Y" :: d :: fl :: r => do
       some (.native false (.deploy (← d.toNat?)) (Flags.ofNat (← fl.toNat?)) .skip .skip, r)
-    | "M" :: fl :: r => do
-      some (.native false .update (Flags.ofNat (← fl.toNat?)) .skip .skip, r)
-    | "Z" :: fl :: r => do
-      some (.native false .destroy (Flags.ofNat (← fl.toNat?)) .skip .skip, r)
+    | "M" :: v :: fl :: r => do
+      some (.native false (.update (← v.toNat?)) (Flags.ofNat (← fl.toNat?)) .skip .skip, r)
+    | "Z" :: fl :: tag :: r => do
+      -- ContractManagement.destroy = Policy.BlockAccountInternalDeferrable(self): revoke the contract's votes, then in
+      -- the same frame the deferred GAS minting (payment callback of the still existing contract), then the erasure
+      let tag ← tag.toNat?
+      let f := Flags.ofNat (← fl.toNat?)
+      some (.native false (.revoke 99 tag) f .skip
+        (.seq (mintNode self 99 tag f) (.native true .destroy f .skip .skip)), r)
+    | "KR" :: fl :: r => do
+      some (.native false .regCand (Flags.ofNat (← fl.toNat?)) .skip .skip, r)
+    | "KU" :: w :: fl :: r => do
+      some (.native false (.unregCand (w == "1")) (Flags.ofNat (← fl.toNat?)) .skip .skip, r)
+    | "OR" :: u :: fl :: r => do
+      some (.native false (.oracleReq (← u.toNat?)) (Flags.ofNat (← fl.toNat?)) .skip .skip, r)
+    | "OF" :: fl :: r => do
+      some (.native false .oracleFinish (Flags.ofNat (← fl.toNat?)) .skip .skip, r)
+    | "NL" :: till :: fl :: r => do
+      some (.native false (.lock (← till.toNat?)) (Flags.ofNat (← fl.toNat?)) .skip .skip, r)
+    | "NW" :: to :: fl :: r => do
+      some (.native false (.withdraw (← to.toNat?)) (Flags.ofNat (← fl.toNat?)) .skip .skip, r)
     | "R" :: role :: v :: fl :: r => do
       some (.native false (.designate (← role.toNat?) (← v.toNat?)) (Flags.ofNat (← fl.toNat?)) .skip .skip, r)
     | "W" :: c :: fee :: fl :: r => do
@@ -91,16 +130,16 @@ mutual
       some (.native false (.delWl (← c.toNat?)) (Flags.ofNat (← fl.toNat?)) .skip .skip, r)
     | "E" :: to :: amt :: fl :: tag :: hasCb :: r => do
       -- NEO.transfer = the method proper, then in the same frame the deferred GAS minting for sender and receiver
-      let (cb, r) ← pList r
       let to ← to.toNat?
+      let (cb, r) ← pList to r
       let tag ← tag.toNat?
       let f := Flags.ofNat (← fl.toNat?)
       some (.native false (.neoXfer to (← amt.toNat?) (to < 4) tag) f (if hasCb == "1" then cb else .skip)
-        (.seq (.native true (.mint 99 tag) f .skip .skip) (.native true (.mint to tag) f .skip .skip)), r)
+        (.seq (mintNode self 99 tag f) (mintNode self to tag f)), r)
     | "O" :: on :: fl :: tag :: r => do
       let f := Flags.ofNat (← fl.toNat?)
       let tag ← tag.toNat?
-      some (.native false (.vote (on != "0") tag) f .skip (.native true (.mint 99 tag) f .skip .skip), r)
+      some (.native false (.vote (on != "0") tag) f .skip (mintNode self 99 tag f), r)
     | _ => none
 end
 
@@ -136,8 +175,10 @@ structure DState where
   cur : Log := []       -- block cache under the implementation model
   curS : Log := []      -- the same under the specification
   tree : Tree := .skip
+  prev : Log := []      -- block cache under the implementation model before the last `tx`
   oog : Bool := false
   cs : CStack := ⟨fun _ => 0, 0, [[]]⟩
+  bl : List Nat := []   -- Policy's blocked-accounts cache (accounts numbered in the order of their hashes)
 
 /-- what every native id shows at every depth of the cache stack, top first. -/
 def showCaches (st : CStack) : String :=
@@ -162,6 +203,8 @@ def cinit : Nat → Toks → CStack → Option CStack
       | ls => ls⟩
   | _, _, _ => none
 
+def showList (l : List Nat) : String := s!"bl {l.length}{String.join (l.map fun x => s!" {x}")}"
+
 def pNats : Nat → Toks → List Nat → Option (List Nat × Toks)
   | 0, ts, acc => some (acc.reverse, ts)
   | n + 1, x :: r, acc => do pNats n r ((← x.toNat?) :: acc)
@@ -183,10 +226,10 @@ def step (s : DState) (ws : List String) : DState × String :=
       ({ cur := σ, curS := σ }, "ok")
     | none => (s, "bad-block")
   | "tx" :: "|" :: ts =>
-    match pList ts with
+    match pList entryId ts with
     | some (t, []) =>
       let o := implRun s.cur t
-      ({ s with cur := o.store, tree := t }, (if o.halt then "HALT " else "FAULT ") ++ showEvents o.raw)
+      ({ s with cur := o.store, prev := s.cur, tree := t }, (if o.halt then "HALT " else "FAULT ") ++ showEvents o.raw)
     | _ => (s, "bad-tree")
   | "cinit" :: n :: r =>
     match n.toNat? with
@@ -203,15 +246,41 @@ def step (s : DState) (ws : List String) : DState × String :=
   | ["cpersist"] => let st := s.cs.persist; ({ s with cs := st }, showCaches st)
   | ["cdrop"] => let st := s.cs.drop; ({ s with cs := st }, showCaches st)
   | ["cread"] => (s, showCaches s.cs)
+  -- Policy's sorted blocked-accounts cache (Model/ExecBlocked.lean): blockAccount / unblockAccount of an account,
+  -- and blockAccount of x whose reward callback blocks y before x is inserted (the stale position)
+  | "blset" :: n :: r =>
+    match n.toNat? with
+    | some n =>
+      match pNats n r [] with
+      | some (l, []) => ({ s with bl := l }, showList l)
+      | _ => (s, "bad-op")
+    | none => (s, "bad-op")
+  | ["blblock", x] =>
+    match x.toNat? with
+    | some x => let l := Blocked.blockCoded id s.bl x; ({ s with bl := l }, showList l)
+    | none => (s, "bad-op")
+  | ["blunblock", x] =>
+    match x.toNat? with
+    | some x => let l := Blocked.unblockCoded s.bl x; ({ s with bl := l }, showList l)
+    | none => (s, "bad-op")
+  | ["blstale", x, y] =>
+    match x.toNat?, y.toNat? with
+    | some x, some y => let l := Blocked.blockCoded (fun l => Blocked.blockCoded id l y) s.bl x; ({ s with bl := l }, showList l)
+    | _, _ => (s, "bad-op")
   | "txg" :: "|" :: ts =>
     -- a transaction that runs out of gas at a point the model does not know: FAULT, no change
-    match pList ts with
+    match pList entryId ts with
     | some (t, []) => ({ s with tree := t, oog := true }, "FAULT")
     | _ => (s, "bad-tree")
   | ["spec"] =>
     if s.oog then ({ s with oog := false }, "FAULT ev 0") else
     let o := specRun s.curS s.tree
     ({ s with curS := o.store }, (if o.halt then "HALT " else "FAULT ") ++ showEvents o.events)
+  | ["dev"] =>
+    -- did the run of the last `tx` apply the deviating commit rule (the `dev` flag of specKRun)?
+    -- after a deviation the specification continues from the implementation model's state (the following
+    -- transactions of the block are judged on their own)
+    if (specKRun s.prev s.tree).2 then ({ s with curS := s.cur }, "dev 1") else (s, "dev 0")
   | ["end"] => (s, showStore s.cur)
   | ["specend"] => (s, showStore s.curS)
   | _ => (s, "bad-op")
